@@ -37,7 +37,7 @@ def content(kind, n, ver):
 
 FILES = [("/t/small.txt", "text", 100), ("/t/a.txt", "text", 5000), ("/t/b.html", "text", 40000), ("/t/c.json", "text", 70000), ("/t/rand.txt", "rand", 50000),
          ("/t/z.txt", "zeros", 300000), ("/t/big.txt", "text", 2097152 + 4321), ("/t/exact2m.txt", "text", 2097152), ("/t/x.bin", "text", 20000), ("/t/edge.txt", "text", 257),
-         ("/t/k32.txt", "text", 32768), ("/t/k32p.txt", "rand", 32769)]
+         ("/t/k32.txt", "text", 32768), ("/t/k32p.txt", "rand", 32769), ("/t/bigrand.txt", "rand", 3000000)]
 
 
 def decode(enc, body):
@@ -102,8 +102,9 @@ def run_variant(ctx, v, nops, model, sanitize=False):
             if rc != 0: raise vlib.BuildError("faultio.so: " + out[-2000:])
     extra = dict(LD_PRELOAD=so, FAULTIO_RATE="0", FAULTIO_SEED=str(ctx.seed), FAULTIO_FILE_SUBSTR="zcache", FAULTIO_FILE_RATE="20" if v["cache"] else "0")
     s.start(extra)
+    faults_on = v["cache"]
     ver = {p: 0 for p, _, _ in FILES}
-    log = []; viol = None; mlines = []; mexp = []; kills = 0; coded = 0; nreq = 0; hits304 = 0
+    log = []; viol = None; mlines = []; mexp = []; kills = 0; follow = None; refused_run = 0; coded = 0; nreq = 0; hits304 = 0
     etags = {}
     try:
         for i in range(nops):
@@ -122,13 +123,20 @@ def run_variant(ctx, v, nops, model, sanitize=False):
             if x < 0.16 and v["cache"] and kills < 3:
                 # kill while a large compression may be in flight, restart with the same cache directory
                 kills += 1
-                c = s.connect(); c.sendall(b"GET /t/big.txt HTTP/1.1\r\nHost: h\r\nAccept-Encoding: gzip\r\nConnection: close\r\n\r\n")
-                time.sleep(rng.choice([0.0, 0.002, 0.01, 0.03]))
+                kp = rng.choice(["/t/big.txt", "/t/bigrand.txt", "/t/bigrand.txt"])       # incompressible: the cache file grows while the compression runs
+                c = s.connect(); c.sendall(b"GET " + kp.encode() + b" HTTP/1.1\r\nHost: h\r\nAccept-Encoding: gzip\r\nConnection: close\r\n\r\n")
+                time.sleep(rng.choice([0.0, 0.002, 0.01, 0.03, 0.06]))
                 s.proc.send_signal(signal.SIGKILL); s.proc.wait(); c.close(); s.proc = None
                 left = [f for r_, _, fs in os.walk(cache_dir) for f in fs]
-                s.start(extra); log.append(("kill", None, left)); continue
+                # every other restart runs without injected write faults: there a refusal can only come from what the kill left behind
+                faults_on = (kills % 2 == 0)
+                s.start(extra if faults_on else dict(extra, FAULTIO_FILE_RATE="0")); log.append(("kill", None, left))
+                follow = (kp, b"gzip"); refused_run = 0; continue           # what does the cache hold for the very request that was cut?
             p, k, n = rng.choice(FILES)
             ae = rng.choice(AE); method = rng.choice([b"GET", b"GET", b"GET", b"HEAD"])
+            if follow:
+                p, ae = follow; method = b"GET"; follow = None
+                n = [nn for pp, kk, nn in FILES if pp == p][0]
             inm = None
             if etags.get((p, ae)) and rng.random() < 0.3: inm = etags[(p, ae)]
             req = (p.encode(), ae, inm, method)
@@ -139,7 +147,13 @@ def run_variant(ctx, v, nops, model, sanitize=False):
             nreq += 1
             if data == b"" or data.startswith(b"HTTP/1.1 500"):
                 # a failed cache write makes mod_deflate fail the request (nothing, or a 500, is sent): refused, not stale or partial content
-                log.append(("refused", p, len(data))); continue
+                log.append(("refused", p, len(data)))
+                if not faults_on:
+                    viol = ("the request was refused (no response / 500) although no write fault is being injected: what the interrupted compression left in the cache "
+                            "makes the resource unavailable", req, i); break
+                if v["cache"] and ae is not None: follow = (p, ae)      # a failed cache write must not leave something that is served (or blocks) next time
+                continue
+            refused_run = 0
             try: rs = H1.parse_stream(data, [method], True)
             except H1.Bad as e:
                 viol = ("malformed response: %s" % e, req, i); break
